@@ -21,7 +21,7 @@ class Case:
 
     def cfg_line(self):
         c = self.cfg
-        parts = ["ctor=" + c["ctor"], "q=" + enc(c["q"])]
+        parts = ["ctor=" + c["ctor"], "q=" + enc(c.get("q_raw", c["q"]))]
         if self.meta.get("direct"):
             parts.append("direct=1")
         if c["ctor"] == "generic":
@@ -140,6 +140,7 @@ def parse_output(path):
             cur["X"][int(f[1])] = f[2]
         elif line.startswith("F "):
             cur["F"].add(line.split(" ")[2])
+            cur.setdefault("Fi", {}).setdefault(int(line.split(" ")[1]), set()).add(line.split(" ")[2])
         elif line.startswith("BUILD-ERROR") or line.startswith("CTOR-ERROR"):
             cur["err"] = line
     return res
